@@ -109,7 +109,9 @@ def one_history(ctx, drv):
             os.makedirs(os.path.dirname(os.path.join(a, p)) or a, exist_ok=True)
             open(os.path.join(a, p), 'wb').write(data)
             os.utime(os.path.join(a, p), ns=((T0 - 5000) * 10**9, (T0 - 5000) * 10**9))
-        now = T0
+        # the clock does not tick on whole seconds: a scan may start anywhere within a second (a TIMESTAMP rounded UP would
+        # lie after the start)
+        now = T0 + rng.choice([0, 0.25, 0.5, 0.75, 0.999])
         clk = Clock(now)
         hashes = rng.choice(['SHA1', 'MD5 SHA256'])
         rc = cli(['create', '-t', '-H', hashes, a], clk)
@@ -126,9 +128,9 @@ def one_history(ctx, drv):
                 now += rng.choice([50, 3000])
                 if rng.random() < 0.7:
                     for r in (a, b):
-                        open(os.path.join(r, 'sub', 'between-%d' % rnd), 'wb').write(b'x%d' % now)
-                        os.utime(os.path.join(r, 'sub', 'between-%d' % rnd), ns=(now * 10**9, now * 10**9))
-                    files['sub/between-%d' % rnd] = b'x%d' % now
+                        open(os.path.join(r, 'sub', 'between-%d' % rnd), 'wb').write(b'x%d' % int(now))
+                        os.utime(os.path.join(r, 'sub', 'between-%d' % rnd), ns=(int(now * 10**9), int(now * 10**9)))
+                    files['sub/between-%d' % rnd] = b'x%d' % int(now)
                 rcs = [cli(['update', '-H', hashes, os.path.join(r, 'sub')], Clock(now)) for r in (a, b)]
                 scen_s = {'op': 'sub-directory-update-between', 'zone': zone, 'round': rnd, 'exit': rcs}
                 ctx.count('op:sub-directory-update-between-rounds')
@@ -236,8 +238,8 @@ def one_history(ctx, drv):
                     os.utime(path, ns=(mt * 10**9, mt * 10**9))
                     done.append(1)
             # make the victim be re-hashed in this run: touch it newer than the TIMESTAMP first
-            os.utime(os.path.join(a, victim), ns=((now - 1) * 10**9, (now - 1) * 10**9))
-            open(os.path.join(a, 'trigger'), 'wb').write(b't%d' % now)
+            os.utime(os.path.join(a, victim), ns=(int((now - 1) * 10**9), int((now - 1) * 10**9)))
+            open(os.path.join(a, 'trigger'), 'wb').write(b't%d' % int(now))
             rc1 = cli(['update', '--incremental', '-H', hashes, a], clk, hook)
             now += 1000
             rc2 = cli(['update', '--incremental', '-H', hashes, a], Clock(now))
